@@ -5,13 +5,22 @@ package main
 
 import (
 	"fmt"
+	"io"
+	"net"
+	"net/http"
+	"net/http/httptest"
 	"sort"
 	"strconv"
+	"strings"
+	"sync"
 	"time"
+
+	"github.com/prometheus/common/expfmt"
 
 	"github.com/prometheus/client_golang/prometheus"
 	dto "github.com/prometheus/client_model/go"
 
+	"github.com/form3tech-oss/f1/v2/internal/envsettings"
 	"github.com/form3tech-oss/f1/v2/internal/metrics"
 	"github.com/form3tech-oss/f1/v2/internal/options"
 	"github.com/form3tech-oss/f1/v2/internal/verifharness/hlib"
@@ -333,11 +342,198 @@ func builtFirstSuite() hlib.Suite {
 	}}
 }
 
+// gateway is an in-process stand-in for a Prometheus push gateway with the documented semantics of
+// its API: PUT replaces everything stored under the grouping key, POST replaces only the metric
+// families of the same names and keeps the others, DELETE removes the group. It runs on real
+// goroutines of net/http outside the controlled scheduler; a push is a synchronous call of the
+// pushing thread, so from the run's point of view it is one external step.
+type gateway struct {
+	mu     sync.Mutex
+	groups map[string]map[string]*dto.MetricFamily // grouping key (URL path) -> family name -> family
+	pushes int
+	bad    []string
+}
+
+func (g *gateway) ServeHTTP(w http.ResponseWriter, q *http.Request) {
+	g.mu.Lock()
+	defer g.mu.Unlock()
+	// a group is identified by the job and the set of grouping labels; their order in the path is the pusher's business
+	key := q.URL.Path
+	if seg := strings.Split(strings.TrimPrefix(key, "/metrics/job/"), "/"); strings.HasPrefix(key, "/metrics/job/") && len(seg)%2 == 1 {
+		var pairs []string
+		for i := 1; i+1 < len(seg); i += 2 {
+			pairs = append(pairs, seg[i]+"/"+seg[i+1])
+		}
+		sort.Strings(pairs)
+		key = "/metrics/job/" + seg[0]
+		for _, p := range pairs {
+			key += "/" + p
+		}
+	}
+	switch q.Method {
+	case http.MethodPut, http.MethodPost:
+		fams := map[string]*dto.MetricFamily{}
+		dec := expfmt.NewDecoder(q.Body, expfmt.ResponseFormat(q.Header))
+		for {
+			mf := &dto.MetricFamily{}
+			if err := dec.Decode(mf); err != nil {
+				if err != io.EOF {
+					g.bad = append(g.bad, "undecodable push: "+err.Error())
+				}
+				break
+			}
+			fams[mf.GetName()] = mf
+		}
+		g.pushes++
+		if q.Method == http.MethodPut || g.groups[key] == nil {
+			g.groups[key] = fams
+		} else {
+			for n, mf := range fams {
+				g.groups[key][n] = mf
+			}
+		}
+		w.WriteHeader(http.StatusOK)
+	case http.MethodDelete:
+		delete(g.groups, key)
+		w.WriteHeader(http.StatusAccepted)
+	default:
+		g.bad = append(g.bad, "method "+q.Method)
+		w.WriteHeader(http.StatusMethodNotAllowed)
+	}
+}
+
+// gatewaySuite: consecutive runs of one scenario that push to a gateway. What the gateway holds for
+// the scenario's group after each run is that run alone: the iteration samples per result label equal
+// the final result, there is one setup sample, and a run without iterations leaves none of an earlier
+// run's iteration samples behind ("metrics of earlier runs are not mixed in", at the place where the
+// exported metrics are actually read). The grouping key carries the job f1-<scenario> and the
+// configured namespace / id.
+func gatewaySuite() hlib.Suite {
+	return hlib.Suite{Name: "push-gateway/consecutive-runs-of-one-scenario", Run: func(r *hlib.Rec) {
+		seqs := [][]mix{{mixes[0], mixes[4]}, {mixes[1], mixes[6]}, {mixes[3], mixes[5]}, {mixes[0]}, {mixes[4], mixes[0], mixes[4]}, {mixes[2], mixes[4], mixes[5]}}
+		for si, sq := range seqs {
+			for _, grp := range []envsettings.Prometheus{{}, {Namespace: "ns1"}, {LabelID: "run-7"}, {Namespace: "ns1", LabelID: "run-7"}} {
+				if !r.Mine() {
+					continue
+				}
+				r.Eval()
+				gw := &gateway{groups: map[string]map[string]*dto.MetricFamily{}}
+				ln, lerr := net.Listen("tcp", "127.0.0.1:0")
+				if lerr != nil {
+					// no loopback interface in this environment: the suite cannot run, which is not a statement about f1
+					r.Note = "skipped: cannot listen on the loopback interface (" + lerr.Error() + ")"
+					return
+				}
+				srv := &httptest.Server{Listener: ln, Config: &http.Server{Handler: gw}}
+				srv.Start()
+				grp.PushGateway = srv.URL
+				var rn []string
+				for _, x := range sq {
+					rn = append(rn, x.name)
+				}
+				input := fmt.Sprintf("push gateway configured (namespace=%q id=%q), runs=%v of scenario s on one metrics instance", grp.Namespace, grp.LabelID, rn)
+				r.SampleCase(input)
+				reg := prometheus.NewRegistry()
+				m := metrics.NewInstance(reg, true, map[string]string{"zone": "z1"})
+				wantKey := "/metrics/job/f1-s"
+				if grp.LabelID != "" {
+					wantKey += "/id/" + grp.LabelID
+				}
+				if grp.Namespace != "" {
+					wantKey += "/namespace/" + grp.Namespace
+				}
+				for ri, mx := range sq {
+					mx := mx
+					rs := &hlib.RunSpec{Mode: "constant", Quiet: true, Metrics: m, Scenario: "s", CompletionTimeout: time.Second, Prometheus: grp,
+						Flags: map[string]string{"rate": "1/100ms", "distribution": "none"},
+						Opts:  options.RunOptions{MaxDuration: 10 * time.Second, Concurrency: 1, MaxIterations: mx.iters, IgnoreDropped: true}}
+					if mx.drops {
+						rs.Flags["rate"] = "2/100ms"
+					}
+					rs.ScenarioFn = func(t *f1testing.T) f1testing.RunFn {
+						if mx.setup == "fail" {
+							t.FailNow()
+						}
+						if mx.setup == "panic" {
+							panic("setup panics")
+						}
+						return func(t *f1testing.T) {
+							id, _ := strconv.Atoi(t.Iteration)
+							if mx.drops {
+								vtime.Sleep(150 * time.Millisecond)
+							}
+							if mx.fails[id] {
+								t.Fail()
+							}
+						}
+					}
+					res := hlib.RunOnce(rs, -1, 0, 60*time.Second)
+					if res.BuildErr != nil {
+						panic(res.BuildErr)
+					}
+					at := fmt.Sprintf("after run %d (%s)", ri+1, mx.name)
+					if res.Out.Status != vrt.StOK {
+						r.Fail("C16/run-broken", "gateway/"+mx.name, res.Out.Status.String()+": "+res.Out.Detail+res.Out.Crash, input)
+						break
+					}
+					gw.mu.Lock()
+					var keys []string
+					for k := range gw.groups {
+						keys = append(keys, k)
+					}
+					sort.Strings(keys)
+					got := map[string]uint64{}
+					var setupN uint64
+					for _, mf := range gw.groups[wantKey] {
+						for _, x := range mf.GetMetric() {
+							lab := map[string]string{}
+							for _, l := range x.GetLabel() {
+								lab[l.GetName()] = l.GetValue()
+							}
+							switch {
+							case mf.GetName() == "form3_loadtest_iteration" && lab["stage"] == "iteration":
+								got[lab["result"]] += x.GetSummary().GetSampleCount()
+							case mf.GetName() == "form3_loadtest_setup":
+								setupN += x.GetSummary().GetSampleCount()
+							}
+						}
+					}
+					pushes, bad := gw.pushes, strings.Join(gw.bad, "; ")
+					gw.mu.Unlock()
+					if bad != "" {
+						r.Fail("C16/gateway-protocol", "bad-request", at+": "+bad, input)
+					}
+					if pushes == 0 {
+						r.Fail("C16/gateway-push", "nothing-pushed", at+": a push gateway is configured and no push reached it", input)
+						break
+					}
+					if len(keys) != 1 || keys[0] != wantKey {
+						r.Fail("C16/gateway-group", "grouping-key", fmt.Sprintf("%s: the gateway holds groups %v, want exactly %s", at, keys, wantKey), input)
+						break
+					}
+					if got["success"] != res.Success || got["fail"] != res.Fail || got["dropped"] != res.Dropped {
+						kind := "differs-from-result"
+						if ri > 0 && (got["success"] > res.Success || got["fail"] > res.Fail || got["dropped"] > res.Dropped) {
+							kind = "earlier-run-mixed-in"
+						}
+						r.Fail("C16/gateway-iteration-counts", kind, fmt.Sprintf("%s: the gateway's group holds success=%d fail=%d dropped=%d, the result reports %d/%d/%d", at, got["success"], got["fail"], got["dropped"], res.Success, res.Fail, res.Dropped), input)
+					}
+					if setupN != 1 {
+						r.Fail("C16/gateway-setup-count", fmt.Sprint(setupN), fmt.Sprintf("%s: the gateway's group holds %d setup samples, want exactly 1", at, setupN), input)
+					}
+				}
+				srv.Close()
+				r.Distinct(fmt.Sprintf("seq %d ns=%v id=%v", si, grp.Namespace != "", grp.LabelID != ""))
+			}
+		}
+	}}
+}
+
 func suites(tier string) []hlib.Suite {
 	if tier == "quick" {
-		return []hlib.Suite{suite(8, 3), builtFirstSuite()}
+		return []hlib.Suite{suite(8, 3), builtFirstSuite(), gatewaySuite()}
 	}
-	return []hlib.Suite{suite(64, 3), builtFirstSuite()}
+	return []hlib.Suite{suite(64, 3), builtFirstSuite(), gatewaySuite()}
 }
 
 func main() { hlib.EnumMain("C16", suites) }
